@@ -2036,8 +2036,8 @@ theorem jsonSize_pos (j : Json) : 1 ≤ jsonSize j := by
 theorem deFuel_ge (e : Env) (j : Json) : 6 ≤ deFuel e j := by
   unfold deFuel
   have h1 := jsonSize_pos j
-  calc 6 = 3 * 2 := rfl
-    _ ≤ (jsonSize j + 2) * (e.items.length + e.externs.length + 2) := Nat.mul_le_mul (by omega) (by omega)
+  have h2 : 3 * 2 ≤ (jsonSize j + 2) * (e.items.length + e.externs.length + 2) := Nat.mul_le_mul (by omega) (by omega)
+  omega
 
 theorem insert_of_not_mem (k : String) (v : Json) :
     ∀ (acc : List (String × Json)), k ∉ acc.map (·.1) → Json.insert k v acc = acc ++ [(k, v)]
